@@ -20,6 +20,7 @@ type Event struct {
 	Deferred bool    // executed by RunDefers
 	Idx      int
 	AtExit   map[string]*Term // for deferred calls: memory at the time the defer runs
+	Inlined  bool             // produced by an inlined helper
 }
 
 // Atom is a normalised branch fact.
@@ -48,6 +49,9 @@ type PathState struct {
 	Infeasible bool
 	defers []Event
 	StopBlock *ssa.BasicBlock // set when the path ended by re-entering this block
+	Inlines   []string        // helpers interpreted inline on this path
+	Panicked  bool            // the path ends in a panic raised inside an inlined helper
+	Resolved  map[string]*Term // call term key -> the value the (pure, branching) callee returns on this path
 }
 
 // PhiIn returns, for a path that ended by entering StopBlock, the term flowing into phi (a phi of StopBlock).
@@ -225,6 +229,9 @@ func (s *PathState) compute(v ssa.Value) *Term {
 		return mk("slice", "", k+")", v, args...)
 	case *ssa.Extract:
 		a := s.T(x.Tuple)
+		if a.Op == "tuple" && x.Index < len(a.Args) {
+			return a.Args[x.Index]
+		}
 		return mk("extract", fmt.Sprint(x.Index), a.K+"#"+fmt.Sprint(x.Index), v, a)
 	case *ssa.TypeAssert:
 		a := s.T(x.X)
@@ -676,6 +683,14 @@ func (s *PathState) addFact(t *Term, truth bool) bool {
 			a = Atom{Op: "false", A: a.A}
 		}
 	}
+	if a.B != nil && a.B.IsConst("nil") && knownNonNil(a.A) {
+		if a.Op == "==" {
+			return false
+		}
+		if a.Op == "!=" {
+			return true
+		}
+	}
 	// contradiction with earlier atoms on identical operands
 	for _, e := range s.Atoms {
 		if e.A.K != a.A.K {
@@ -702,6 +717,68 @@ func (s *PathState) addFact(t *Term, truth bool) bool {
 		}
 	}
 	s.Atoms = append(s.Atoms, a)
+	return s.propagateBool()
+}
+
+// propagateBool closes the truth atoms under (in)equalities between booleans: x != y ∧ true(y) ⇒ false(x), etc.
+// Returns false on a contradiction.
+func (s *PathState) propagateBool() bool {
+	for changed := true; changed; {
+		changed = false
+		truth := map[string]int{} // 1 true, -1 false
+		for _, a := range s.Atoms {
+			if a.Op == "true" {
+				truth[a.A.K] = 1
+			} else if a.Op == "false" {
+				truth[a.A.K] = -1
+			}
+		}
+		val := func(t *Term) int {
+			if t.IsConst("true") {
+				return 1
+			}
+			if t.IsConst("false") {
+				return -1
+			}
+			return truth[t.K]
+		}
+		for _, a := range s.Atoms {
+			if (a.Op != "==" && a.Op != "!=") || a.B == nil {
+				continue
+			}
+			x, y := val(a.A), val(a.B)
+			if x == 0 && y == 0 {
+				continue
+			}
+			sign := 1
+			if a.Op == "!=" {
+				sign = -1
+			}
+			switch {
+			case x != 0 && y != 0:
+				if x != sign*y {
+					return false
+				}
+			case x == 0 && a.A.Op != "const":
+				op := "true"
+				if sign*y < 0 {
+					op = "false"
+				}
+				s.Atoms = append(s.Atoms, Atom{Op: op, A: a.A})
+				changed = true
+			case y == 0 && a.B.Op != "const":
+				op := "true"
+				if sign*x < 0 {
+					op = "false"
+				}
+				s.Atoms = append(s.Atoms, Atom{Op: op, A: a.B})
+				changed = true
+			}
+			if changed {
+				break
+			}
+		}
+	}
 	return true
 }
 
@@ -948,6 +1025,49 @@ func EnumPathsTo(fn *ssa.Function, from *ssa.BasicBlock, target ssa.Instruction,
 	if from == nil {
 		from = fn.Blocks[0]
 	}
+	if inlineDepth == 0 {
+		// top-level enumeration: helper summaries are per program
+	}
+	if target != nil && target.Parent() != fn {
+		// the target lives in a helper that is interpreted inline: stop inside the inlined frame
+		res := EnumResult{Complete: true}
+		found := false
+		for _, b := range fn.Blocks {
+			for _, in := range b.Instrs {
+				c, ok := in.(*ssa.Call)
+				if !ok {
+					continue
+				}
+				g := c.Common().StaticCallee()
+				if g == nil || !Inlinable(g) || inlineStack[g] || !deepContains(g, target) {
+					continue
+				}
+				found = true
+				r := EnumPathsTo(fn, from, c, nil, func(s *PathState) {
+					ts, complete := templates(g, target)
+					if !complete {
+						res.Complete = false
+					}
+					for _, t := range ts {
+						s2 := s.clone()
+						if ok, _ := s2.applyTemplate(c, g, t, true); !ok {
+							res.Infeasible++
+							continue
+						}
+						res.Paths++
+						visit(s2)
+					}
+				})
+				if !r.Complete {
+					res.Complete = false
+				}
+			}
+		}
+		if !found {
+			res.Complete = true
+		}
+		return res
+	}
 	// blocks that can reach the target block
 	canReach := map[*ssa.BasicBlock]bool{}
 	if target != nil {
@@ -992,12 +1112,19 @@ func EnumPathsTo(fn *ssa.Function, from *ssa.BasicBlock, target ssa.Instruction,
 			return
 		}
 		s := &PathState{Fn: fn, Blocks: append([]*ssa.BasicBlock(nil), path...), env: map[ssa.Value]*Term{}, mem: map[string]*Term{}, memver: map[string]int{}, loopy: loopy, StopBlock: stopNow}
-		if !s.interpret(target) {
+		s.exec(0, 0, target, func(fs *PathState) {
+			if res.Paths+res.Infeasible >= PathLimit {
+				res.Complete = false
+				return
+			}
+			res.Paths++
+			visit(fs)
+		}, func(incomplete bool) {
 			res.Infeasible++
-			return
-		}
-		res.Paths++
-		visit(s)
+			if incomplete {
+				res.Complete = false
+			}
+		})
 	}
 	dfs = func(b *ssa.BasicBlock) {
 		if !res.Complete {
@@ -1037,43 +1164,91 @@ func EnumPathsTo(fn *ssa.Function, from *ssa.BasicBlock, target ssa.Instruction,
 	return res
 }
 
-// interpret executes the path; returns false if the branch facts are contradictory.
-func (s *PathState) interpret(target ssa.Instruction) bool {
-	for i, b := range s.Blocks {
-		var pred *ssa.BasicBlock
-		if i > 0 {
-			pred = s.Blocks[i-1]
+// exec interprets the path from block bi, instruction ii. emit is called for every feasible completion (several when
+// helpers are interpreted inline: one per feasible helper path); drop for infeasible ones.
+func (s *PathState) exec(bi, ii int, target ssa.Instruction, emit func(*PathState), drop func(incomplete bool)) {
+	for i := bi; i < len(s.Blocks); i++ {
+		b := s.Blocks[i]
+		start := 0
+		if i == bi {
+			start = ii
 		}
-		// phis first (parallel assignment)
-		type pv struct {
-			p *ssa.Phi
-			t *Term
-		}
-		var pvs []pv
-		for _, in := range b.Instrs {
-			phi, ok := in.(*ssa.Phi)
-			if !ok {
-				break
+		if start == 0 {
+			var pred *ssa.BasicBlock
+			if i > 0 {
+				pred = s.Blocks[i-1]
 			}
-			if pred == nil {
-				continue
+			// phis first (parallel assignment)
+			type pv struct {
+				p *ssa.Phi
+				t *Term
 			}
-			for j, p := range b.Preds {
-				if p == pred {
-					pvs = append(pvs, pv{phi, s.T(phi.Edges[j])})
+			var pvs []pv
+			for _, in := range b.Instrs {
+				phi, ok := in.(*ssa.Phi)
+				if !ok {
 					break
 				}
+				if pred == nil {
+					continue
+				}
+				for j, p := range b.Preds {
+					if p == pred {
+						pvs = append(pvs, pv{phi, s.T(phi.Edges[j])})
+						break
+					}
+				}
+			}
+			for _, x := range pvs {
+				s.env[x.p] = x.t
 			}
 		}
-		for _, x := range pvs {
-			s.env[x.p] = x.t
-		}
-		for _, in := range b.Instrs {
+		for k := start; k < len(b.Instrs); k++ {
+			in := b.Instrs[k]
 			if in == target {
-				return true
+				emit(s)
+				return
 			}
 			if _, ok := in.(*ssa.Phi); ok {
 				continue
+			}
+			if g := inlineCallee(in); g != nil {
+				call := in.(*ssa.Call)
+				ts, complete := templates(g, nil)
+				if !complete {
+					drop(true)
+					return
+				}
+				for _, t := range ts {
+					s2 := s.clone()
+					ok, panicked := s2.applyTemplate(call, g, t, false)
+					if !ok {
+						drop(false)
+						continue
+					}
+					if panicked {
+						s2.Panicked = true
+						if target == nil {
+							emit(s2)
+						}
+						continue
+					}
+					s2.exec(i, k+1, target, emit, drop)
+				}
+				return
+			}
+			if g := pureCallee(in); g != nil {
+				call := in.(*ssa.Call)
+				ts, _ := templates(g, nil)
+				for _, t := range ts {
+					s2 := s.clone()
+					if ok, _ := s2.applyTemplateMode(call, g, t, false, true); !ok {
+						drop(false)
+						continue
+					}
+					s2.exec(i, k+1, target, emit, drop)
+				}
+				return
 			}
 			s.step(in)
 		}
@@ -1090,22 +1265,25 @@ func (s *PathState) interpret(target ssa.Instruction) bool {
 					continue
 				}
 				if !s.addFact(s.T(iff.Cond), truth) {
-					return false
+					drop(false)
+					return
 				}
 			}
 		}
 	}
-	return true
+	if target == nil {
+		emit(s)
+		return
+	}
+	// target not reached on this block sequence (it lies in the last block after a fork): nothing to emit
 }
 
 // Targets returns the instructions of fn satisfying pred, in block order.
 func Targets(fn *ssa.Function, pred func(ssa.Instruction) bool) []ssa.Instruction {
 	var out []ssa.Instruction
-	for _, b := range fn.Blocks {
-		for _, in := range b.Instrs {
-			if pred(in) {
-				out = append(out, in)
-			}
+	for _, in := range DeepInstrs(fn) {
+		if pred(in) {
+			out = append(out, in)
 		}
 	}
 	return out
@@ -1114,14 +1292,12 @@ func Targets(fn *ssa.Function, pred func(ssa.Instruction) bool) []ssa.Instructio
 // CallsTo returns the call instructions (call/go/defer) in fn whose callee name matches one of names.
 func CallsTo(fn *ssa.Function, names ...string) []ssa.CallInstruction {
 	var out []ssa.CallInstruction
-	for _, b := range fn.Blocks {
-		for _, in := range b.Instrs {
-			if c, ok := in.(ssa.CallInstruction); ok {
-				n := CalleeName(c)
-				for _, w := range names {
-					if n == w {
-						out = append(out, c)
-					}
+	for _, in := range DeepInstrs(fn) {
+		if c, ok := in.(ssa.CallInstruction); ok {
+			n := CalleeName(c)
+			for _, w := range names {
+				if n == w {
+					out = append(out, c)
 				}
 			}
 		}
@@ -1132,4 +1308,21 @@ func CallsTo(fn *ssa.Function, names ...string) []ssa.CallInstruction {
 // EventArgsOf evaluates the argument terms of call c in state s (receiver first).
 func (s *PathState) CallArgs(c ssa.CallInstruction) []*Term {
 	return s.callEvent("call", c).Args
+}
+
+// knownNonNil: values that are never nil whatever the path (fresh errors, allocations, functions).
+func knownNonNil(t *Term) bool {
+	if t == nil {
+		return false
+	}
+	switch t.Op {
+	case "call":
+		switch t.Aux {
+		case "fmt.Errorf", "errors.New":
+			return true
+		}
+	case "alloc", "fn", "makeclosure":
+		return true
+	}
+	return false
 }
